@@ -136,7 +136,8 @@ def _flag(v):
     if v is None or isinstance(v, bool):
         return repr(v)
     if isinstance(v, str):
-        return v
+        # keep the wire format of the driver intact (tabs, newlines, separators)
+        return "".join(ch if (ch.isalnum() or ch in "_.>-+") else "~" for ch in v)
     if v is np._NoValue:
         return "NoValue"
     return "*"
